@@ -9,17 +9,21 @@ from . import c12
 PID = "C03"
 LEVEL = "other"
 EXPLANATION = (
-    "Static analysis over MIR of the async client. Decided: R1 the id recorded for a pending call / subscription / batch "
-    "and the serialised text put on the wire originate from the same Request/Batch value (RequestMessage.id <- request.id, "
-    "raw <- to_string(&request); SubscriptionMessage ids <- the request's IsSubscription extension, which Client::subscribe "
-    "fills from the same next_request_id() results as Request.id; BatchMessage.ids <- the batch's IsBatch.id_range); R2 in "
-    "process_single_response every RequestManager key originates from the response's own id(); R3 in the send task the "
-    "transport send of a request/subscribe/batch is dominated by the Ok arm of the corresponding insert_pending_* (so a "
-    "response can never arrive for an id that is not yet pending) and the refused arm sends nothing; R4 every completion "
-    "(oneshot send in the response path) takes its sender from complete_pending_*(..), which remove the entry "
-    "(remove_entry), so a second response with the same id finds nothing; R5 request ids are issued by one atomic "
-    "fetch_add; R6 (= C12.R2, async client) a batch reply element is stored at the slot of its own id. "
-    "NOT decided: the interleaving space itself; correctness of tokio channels."
+    'Static analysis over MIR of the async client. Decided: R1 the id recorded for a pending call / subscription / '
+    'batch and the serialised text put on the wire originate from the same Request/Batch value (RequestMessage.id <- '
+    "request.id, raw <- to_string(&request); SubscriptionMessage ids <- the request's IsSubscription extension, which "
+    "Client::subscribe fills from the same next_request_id() results as Request.id; BatchMessage.ids <- the batch's "
+    "IsBatch.id_range); R2 in process_single_response every RequestManager key originates from the response's own "
+    'id(); R3 in the send task the transport send of a request/subscribe/batch is dominated by the Ok arm of the '
+    'corresponding insert_pending_* (so a response can never arrive for an id that is not yet pending) and the '
+    'refused arm sends nothing; R4 every completion (oneshot send in the response path) takes its sender from '
+    'complete_pending_*(..), which remove the entry (remove_entry), so a second response with the same id finds '
+    'nothing; R5 request ids are issued by one atomic fetch_add; R6 (= C12.R2, async client) a batch reply element is '
+    'stored at the slot of its own id. R4 also requires that complete_pending_* select the pending entry by exact key '
+    "(no scan of the table); R7 no ordering operation on Id values anywhere in the client crates (Id's derived Ord is "
+    "lexicographic for string ids; fixture control); ARR inside the loop over an array message's elements "
+    'handle_recv_message is left only with an error. NOT decided: the interleaving space itself; correctness of tokio '
+    'channels.'
 )
 RULE_TEXT = "instances = message constructions, manager key operands, transport sends, oneshot completions"
 TRUSTED = ["rustc MIR", "tokio oneshot/mpsc", "std HashMap Entry API"]
